@@ -2195,7 +2195,11 @@ func (c *DirConstraint) blobMatches(ctx context.Context, s *search, br blob.Ref,
 	}
 	// Then if needed recurse on the next generation descendants.
 	if !containsMatch && recursive {
-		match, err := c.hasMatchingChild(ctx, s, children, c.blobMatches)
+		// Only RecursiveContains applies to the descendants: the other
+		// fields (FileName, ParentDir, TopFileCount, ...) constrain this
+		// directory, not the sub-directories on the way to the match.
+		sub := &DirConstraint{RecursiveContains: c.RecursiveContains}
+		match, err := c.hasMatchingChild(ctx, s, children, sub.blobMatches)
 		if err != nil {
 			return false, err
 		}
